@@ -394,3 +394,26 @@ func replayTok(raw json.RawMessage) error {
 	}
 	return runTok(c, &pb.Rec{})
 }
+
+// native fuzz (thorough): totality of the four parsers and the round trip on arbitrary bytes
+func FuzzEscapes(f *testing.F) {
+	for _, cd := range codecs {
+		for _, tk := range cd.tokens {
+			f.Add([]byte(tk))
+			f.Add([]byte("ab" + tk + "cd" + tk))
+		}
+	}
+	f.Fuzz(func(t *testing.T, data []byte) {
+		if len(data) > 300 {
+			return
+		}
+		for ci, cd := range codecs {
+			if err := checkTotal(cd, data); err != nil {
+				t.Fatal(err)
+			}
+			if err := runRT(rtCase{Codec: ci, S: data}, nil); err != nil {
+				t.Fatal(err)
+			}
+		}
+	})
+}
